@@ -199,7 +199,7 @@ func (w *qWorld) committed(ds *rm.DS, fn func(tx *bbolt.Tx)) error {
 var qDomains = map[string][]rm.Val{
 	"s":   {rm.Null, rm.Str(""), rm.Str("a"), rm.Str("B"), rm.Str("ab")},
 	"i":   {rm.Null, rm.Int(4), rm.Int(5), rm.Int(6)},
-	"nn":  {rm.Null, rm.Int(4), rm.Int(5)},
+	"nn":  {rm.Null, rm.Int(4), rm.Int(5), rm.Int(-4)}, // stored as int32: a negative value must stay negative when widened
 	"f":   {rm.Null, rm.Flt(4.5), rm.Flt(5.0)},
 	"b":   {rm.Null, rm.Bool(true), rm.Bool(false)},
 	"t":   {rm.Null, rm.Time(qT0), rm.Time(qT1)},
